@@ -64,9 +64,10 @@ static char objectsForOnObject[4][8];
 static void* objectPtr(int id) { return id == 4 ? (void*)0 : (void*)objectsForOnObject[id & 3]; }   // object id 4 is the NULL object
 static int otherObject(int id) { return id % 4 + 1; }
 
+static bool g_nestedCmp = false;      // the custom-type comparators themselves make a mock call (in a scope of their own that ignores other calls) while they compare
 class MyTypeComparator : public MockNamedValueComparator {
 public:
-    bool isEqual(const void* a, const void* b) CPPUTEST_OVERRIDE { return ((const MyType*)a)->x == ((const MyType*)b)->x && ((const MyType*)a)->x != 5; }   // the value 5 equals nothing, not even itself (a "no reading" value)
+    bool isEqual(const void* a, const void* b) CPPUTEST_OVERRIDE { if (g_nestedCmp) mock("cmp").actualCall("isEqual"); return ((const MyType*)a)->x == ((const MyType*)b)->x && ((const MyType*)a)->x != 5; }   // the value 5 equals nothing, not even itself (a "no reading" value)
     SimpleString valueToString(const void* a) CPPUTEST_OVERRIDE { return StringFromFormat("MyType(%d)", ((const MyType*)a)->x); }
 };
 class MyTypeCopier : public MockNamedValueCopier {
@@ -75,12 +76,12 @@ public:
 };
 class MyType2Comparator : public MockNamedValueComparator {       // same equality, another text
 public:
-    bool isEqual(const void* a, const void* b) CPPUTEST_OVERRIDE { return ((const MyType*)a)->x == ((const MyType*)b)->x && ((const MyType*)a)->x != 5; }
+    bool isEqual(const void* a, const void* b) CPPUTEST_OVERRIDE { if (g_nestedCmp) mock("cmp").actualCall("isEqual"); return ((const MyType*)a)->x == ((const MyType*)b)->x && ((const MyType*)a)->x != 5; }
     SimpleString valueToString(const void* a) CPPUTEST_OVERRIDE { return StringFromFormat("Second[%d]", ((const MyType*)a)->x); }
 };
 static const double tolPool[4] = { 0.0, 0.0, 0.3, -1.0 };      // index 1: exact match asked for explicitly
 extern "C" {
-static int myTypeEqualC(const void* a, const void* b) { return ((const MyType*)a)->x == ((const MyType*)b)->x && ((const MyType*)a)->x != 5; }
+static int myTypeEqualC(const void* a, const void* b) { if (g_nestedCmp) mock_scope_c("cmp")->actualCall("isEqual"); return ((const MyType*)a)->x == ((const MyType*)b)->x && ((const MyType*)a)->x != 5; }
 static const char* myTypeToStringC(const void* a) { static char buf[32]; snprintf(buf, sizeof buf, "MyType(%d)", ((const MyType*)a)->x); return buf; }
 static void myTypeCopyC(void* dst, const void* src) { *(MyType*)dst = *(const MyType*)src; }
 static const char* myType2ToStringC(const void* a) { static char buf[32]; snprintf(buf, sizeof buf, "Second[%d]", ((const MyType*)a)->x); return buf; }
@@ -98,7 +99,7 @@ struct Outcome {           // what one execution of a scenario looked like from 
 };
 struct CallPlan { int fn; int obj; Vec<int> vals; Str dev; int task; bool extra; int scope; bool shortForm; int xget; };   // xget: 0, or one more read of the returned value through getter number xget, whatever the stored type
 struct ExpPlan { int fn; int count; int flags; int obj; Vec<int> vals; int ret; int scope; };      // flags: 1 ignoreOtherParameters, 2 named scope, 4 short form (last parameter not specified, and not passed by its calls)
-struct Scenario { bool strict, ignoreOther, useScope, preFail; bool crashOn /* crashOnFailure switched on: the crash method (a counter here) must be asked for by the same failures through both interfaces */; bool otherVal /* also read a value through the other mock support (known finding C19-support-level-value-of-other-scope) */; int rounds; int type2 /* fn6's object parameter uses a second custom type: same equality function, other to-string */, tol /* 0 none, else index into tolPool for fn3's double parameter */; Vec<ExpPlan> exps; Vec<CallPlan> calls; Vec<Op> data; };
+struct Scenario { bool strict, ignoreOther, useScope, preFail; bool nestedCmp /* comparators make a mock call of their own */; bool crashOn /* crashOnFailure switched on: the crash method (a counter here) must be asked for by the same failures through both interfaces */; bool otherVal /* also read a value through the other mock support (known finding C19-support-level-value-of-other-scope) */; int rounds; int type2 /* fn6's object parameter uses a second custom type: same equality function, other to-string */, tol /* 0 none, else index into tolPool for fn3's double parameter */; Vec<ExpPlan> exps; Vec<CallPlan> calls; Vec<Op> data; };
 
 static const char* objType(const Scenario& sc) { return sc.type2 ? "MyType2" : "MyType"; }
 // how many parameters an expectation specifies: all, or all but the last for ignoreOtherParameters (functions with two or more) and for the short form (functions with one or more)
@@ -158,6 +159,7 @@ struct CppFront : public Front {
         if (sc.strict) m(sc).strictOrder();
         if (sc.ignoreOther) mock().ignoreOtherCalls();
         mock().crashOnFailure(sc.crashOn);
+        g_nestedCmp = sc.nestedCmp; if (sc.nestedCmp) mock("cmp").ignoreOtherCalls();
     }
     void expect(const Scenario& sc, const ExpPlan& e) {
         const Fn& F = FNS[e.fn];
@@ -323,6 +325,7 @@ struct CFront : public Front {
         if (sc.strict) m(sc)->strictOrder();
         if (sc.ignoreOther) mock_c()->ignoreOtherCalls();
         mock_c()->crashOnFailure(sc.crashOn ? 1 : 0);
+        g_nestedCmp = sc.nestedCmp; if (sc.nestedCmp) mock_scope_c("cmp")->ignoreOtherCalls();
     }
     void expect(const Scenario& sc, const ExpPlan& e) {
         const Fn& F = FNS[e.fn];
@@ -554,7 +557,7 @@ struct Engine : public vf::Engine {
         for (int s = 0; s < nScen; s++) {
             Group G; G.tag = "scenario";
             bool strict = w.chance(1, 4), ignoreOther = w.chance(1, 5), scope = w.chance(1, 5);
-            G.args.push_back(strict); G.args.push_back(ignoreOther); G.args.push_back(scope); G.args.push_back(w.chance(1, cfront ? 6 : 10)); G.args.push_back(cfront && w.chance(1, 6) ? 2 : 1); G.args.push_back(cfront && w.chance(1, 5)); G.args.push_back(cfront && w.chance(1, 5) ? (int64_t)w.range(1, 3) : 0); G.args.push_back(cfront && w.chance(1, 12)); G.args.push_back(cfront && w.chance(1, 6));
+            G.args.push_back(strict); G.args.push_back(ignoreOther); G.args.push_back(scope); G.args.push_back(w.chance(1, cfront ? 6 : 10)); G.args.push_back(cfront && w.chance(1, 6) ? 2 : 1); G.args.push_back(cfront && w.chance(1, 5)); G.args.push_back(cfront && w.chance(1, 5) ? (int64_t)w.range(1, 3) : 0); G.args.push_back(cfront && w.chance(1, 12)); G.args.push_back(cfront && w.chance(1, 6)); G.args.push_back(cfront && w.chance(1, 6));
             bool mixedScopes = !strict && !scope && w.chance(1, 4), shortForms = w.chance(1, 5);
             int nFn = (int)w.range(1, 4); int fns[4]; for (int i = 0; i < nFn; i++) fns[i] = (int)w.below(N_FN);
             int nExp = (int)w.small(1, 12);
@@ -634,7 +637,7 @@ struct Engine : public vf::Engine {
 
     // -------------------------------------------------------------------------------------------- model
     static void buildScenario(const Group& G, Scenario& sc) {
-        sc.strict = G.arg(0) != 0; sc.ignoreOther = G.arg(1) != 0; sc.useScope = G.arg(2) != 0; sc.preFail = G.arg(3) != 0; sc.rounds = G.arg(4, 1) == 2 ? 2 : 1; sc.type2 = (int)G.arg(5); sc.tol = (int)(G.arg(6) & 3); sc.otherVal = G.arg(7) != 0; sc.crashOn = G.arg(8) != 0;
+        sc.strict = G.arg(0) != 0; sc.ignoreOther = G.arg(1) != 0; sc.useScope = G.arg(2) != 0; sc.preFail = G.arg(3) != 0; sc.rounds = G.arg(4, 1) == 2 ? 2 : 1; sc.type2 = (int)G.arg(5); sc.tol = (int)(G.arg(6) & 3); sc.otherVal = G.arg(7) != 0; sc.crashOn = G.arg(8) != 0; sc.nestedCmp = G.arg(9) != 0;
         for (size_t i = 0; i < G.ops.size(); i++) {
             const Op& o = G.ops[i];
             if (o.kind == M_EXPECT) { ExpPlan e; e.fn = (int)(o.a % N_FN); e.count = (int)o.b; e.flags = (int)o.c; e.obj = (int)o.d; e.vals = parseIdx(o.s); e.vals.resize((size_t)FNS[e.fn].np, 0); e.ret = atoi(o.s2.c_str()); e.scope = (e.flags & 2) ? 1 : 0; sc.exps.push_back(e); }
@@ -757,7 +760,7 @@ struct Engine : public vf::Engine {
         UtestShell::setRethrowExceptions(false);
         UtestShell::setCrashMethod(countCrashRequest);
         reg.runAllTests(res);
-        UtestShell::resetCrashMethod(); mock().crashOnFailure(false); mock_c()->crashOnFailure(0);
+        UtestShell::resetCrashMethod(); mock().crashOnFailure(false); mock_c()->crashOnFailure(0); g_nestedCmp = false;
         reg.resetPlugins();
         mock().clear(); mock().removeAllComparatorsAndCopiers();
         saved->setCurrentRegistry(0);
@@ -856,6 +859,9 @@ struct Engine : public vf::Engine {
                         r.fail("C19", "other_scope_has_return_value", sfmt("scenario %zu call %zu: C++ [%s]  C [%s]", i, q, outs[i].otherHas[q].c_str(), outsC[i].otherHas[q].c_str())); break; }
                     for (size_t q = 0; q < outs[i].log.size(); q++) if (outs[i].log[q] != outsC[i].log[q]) {
                         Str fnn = outs[i].log[q].substr(0, outs[i].log[q].find(' '));
+                        // (known finding C19-return-value-after-nested-call: a comparator that itself made a mock call through the C interface leaves the C interface's
+                        //  file-static "current mock support" on its own scope; what the outer call then says about its return value is that scope's answer)
+                        if (scs[i].nestedCmp) { r.fail("C19", "return_value_after_nested_call", sfmt("scenario %zu call %zu: C++ [%s]  C [%s]", i, q, outs[i].log[q].c_str(), outsC[i].log[q].c_str())); break; }
                         r.fail("C19", "returned_values", sg("fn", fnn.c_str()), sfmt("scenario %zu call %zu: C++ [%s]  C [%s]", i, q, outs[i].log[q].c_str(), outsC[i].log[q].c_str())); break;
                     }
                     h.u64(outsC[i].failures);
